@@ -34,6 +34,7 @@ var accelShapes = []string{
 	`\w*@x`, `[^,]*,`, `a*b`, `\s*=`, `[ab]*c+d`, `a*?b`, `\w+:`, `(?>a*)b`,
 	`\w+@\w+\.com`, `[\w-]+\s*=\s*\d+`, `[a-z]+ = [0-9]+;`,
 	`[abc]\d`, `\d+x`, `[a-c]+`, `a|b|c`, `ab|.c`, `a|.`, `(?:a|b)c|d`, `a?b`, `(a)?b`, `(?=ab)a.`, `(?=a)\w+`, `(?!b)\w`, `(?<=a)b`,
+	`\W?[^a]`, `(\W|)[^a]`, `\D?[^1]`, `\S?[^ ]`, `[\x00-\x60]?[^b]`,
 	`(?((a))\1)-`, `(?((a))\1|)-`, `(a)?(?(1)\1|)b`, `(?(?=a)\w\w|)-`,
 	`[ac]*[ab]{1,2}a`, `a*[ab]{1,2}[a-]`, `[ac]+[ab]{1,3}b[ab]{1,2}a`, `\w*[ab]{2,3}b`, `(?>a+)?ab`, `(?>a*)?aab`, `(?>a{1,2}){2}`, `(?<=(?:a*ba){2})`, `(?<=(?:a*$){2})`,
 	`(a*c?)b\1`, `(\w+,)\1`, `(a+b?)\1c`, `(?<w>\w+ )\k<w>`, `([ab]+c?)d\1`,
@@ -52,6 +53,12 @@ func shapePatterns(r *Rng) []patCase {
 					continue
 				}
 				out = append(out, patCase{pat: s, o: o, alpha: []rune{'a', 'b', 'c', 'd', 'x', '@', '.', '1', ' ', '=', ',', 'A', '\n', 'é', '😀', ';', ':', 'o', 'm', 'y', 'z', 'e', 'f'}, cg: cg})
+			}
+		}
+		// the shorthand classes differ under ECMAScript and RE2 (ranges instead of categories)
+		if strings.Contains(s, `\W`) || strings.Contains(s, `\D`) || strings.Contains(s, `\S`) || strings.Contains(s, `\w`) || strings.Contains(s, `\d`) || strings.Contains(s, `\s`) {
+			for _, o := range []Opts{{ECMA: true}, {RE2: true}} {
+				out = append(out, patCase{pat: s, o: o, alpha: []rune{'a', 'b', 'c', 'x', '@', '.', '1', ' ', '=', ',', 'A', '\n', 'é', '_', '-'}})
 			}
 		}
 	}
